@@ -65,3 +65,73 @@ def uri_segs(text):
         if text.startswith(t):
             return [s] + local_segs(text[len(t):])
     return ["?" + text]
+
+
+# --------------------------------------------------------------------------
+# Value tokens <-> concrete Python values
+import datetime as _dt
+import hashlib as _hl
+
+_TZ530 = _dt.timezone(_dt.timedelta(hours=5, minutes=30))
+_TZM8 = _dt.timezone(_dt.timedelta(hours=-8))
+
+POOLS = {
+    "str": {
+        "s1": ["s1", 'say "hi"', "a\\b", "l1\nl2", "ü<&>'", " lead ", "tab\there", "中文 \U0001F600"],
+        "s2": ["s2", "x=1, y=[2]", "'single'", "semi;colon", "%% @en", "\\\\server\\share", "q\"\"\"q"],
+        "e": [""],
+    },
+    "int": {"0": [0], "1": [1], "7": [7, -1, 2 ** 31, 2 ** 70, -(2 ** 63), 12345678901234567890]},
+    "float": {"0": [0.0], "1": [1.0],
+              "h": [0.5, 0.1, 0.123456789, 1e308, 5e-324, -2.5e-07, 1234567.891, 1e22]},
+    "bool": {"0": [False], "1": [True]},
+    "dt": {
+        "t1": [_dt.datetime(2012, 3, 4, 5, 6, 7),
+               _dt.datetime(2012, 3, 4, 5, 6, 7, tzinfo=_dt.timezone.utc),
+               _dt.datetime(2012, 3, 4, 5, 6, 7, 890000, tzinfo=_TZ530),
+               _dt.datetime(1999, 12, 31, 23, 59, 59, 1)],
+        "t2": [_dt.datetime(2014, 6, 1, 12, 0, 0),
+               _dt.datetime(2014, 6, 1, 12, 0, 0, tzinfo=_TZM8),
+               _dt.datetime(2014, 6, 1, 12, 0, 0, 500, tzinfo=_dt.timezone.utc),
+               _dt.datetime(2038, 1, 19, 3, 14, 8)],
+    },
+}
+
+
+class Vocab(object):
+    """Chooses one concrete representative per token from (seed, salt) and
+    maps concrete values back to tokens (total: unknown values get "?…")."""
+
+    def __init__(self, seed=0, salt=0, plain=False):
+        self.rep = {}
+        self.rev = {}
+        for kind, toks in POOLS.items():
+            for tok, pool in toks.items():
+                if plain:
+                    i = 0
+                else:
+                    d = _hl.sha256(("%s|%s|%s|%s" % (seed, salt, kind, tok)).encode()).digest()
+                    i = int.from_bytes(d[:4], "big") % len(pool)
+                v = pool[i]
+                self.rep[(kind, tok)] = v
+                self.rev[self._key(kind, v)] = tok
+        for tok in POOLS["dt"]:
+            self.rev[("isostr", self.rep[("dt", tok)].isoformat())] = tok
+
+    @staticmethod
+    def _key(kind, v):
+        if kind == "dt":
+            return (kind, v.isoformat(), v.utcoffset())
+        if kind == "float":
+            return (kind, repr(v))
+        return (kind, v)
+
+    def value(self, kind, tok):
+        return self.rep[(kind, tok)]
+
+    def token(self, kind, v):
+        t = self.rev.get(self._key(kind, v))
+        return t if t is not None else "?" + repr(v)
+
+    def iso_token(self, s):
+        return self.rev.get(("isostr", s))
